@@ -62,6 +62,8 @@ struct ClientEnd {
     hist_up: Vec<Vec<u8>>,
     hist_down: Vec<Vec<u8>>,
     silence: u32,
+    /// the current silence only covers the direction towards the client (its own datagrams still reach the server)
+    one_way: bool,
     silent_ticks: u64,
     /// the server held this object's session at some point (by relay address)
     server_ever_held: bool,
@@ -116,6 +118,9 @@ struct Net {
     /// tokens expire 2 * timeout + 4 s after they were minted: long enough for any handshake of a gentle case, short enough for
     /// sessions to outlive their token
     short_tokens: bool,
+    /// during a silence the datagrams for the client are not dropped but arrive from another source port of the relay's host: a
+    /// client transport only listens to the address it is talking to, so for the client that is silence all the same
+    misroute: bool,
     /// RV_DEBUG: per-tick state on stderr (replaying a case by hand)
     debug: bool,
     /// the server's part of the next tick is given this duration instead of the tick length (a frame that took very long)
@@ -182,6 +187,7 @@ impl Net {
             hist_up: vec![],
             hist_down: vec![],
             silence: 0,
+            one_way: false,
             silent_ticks: 0,
             server_ever_held: false,
             expect_dgram_up_by: None,
@@ -256,7 +262,11 @@ impl Net {
                             c.expect_dgram_down_by = None;
                         }
                     }
-                    if c.silence > 0 {
+                    if c.silence > 0 && !(up && c.one_way) {
+                        if !up && self.misroute {
+                            let _ = self.dead.send_to(&bytes, c.addr);
+                            ctx.label("misrouted_during_silence");
+                        }
                         continue;
                     }
                     let starving = tick.saturating_sub(if up { c.last_genuine_up } else { c.last_genuine_down }) >= window;
@@ -457,7 +467,9 @@ impl Net {
             if c.silence > 0 {
                 c.silence -= 1;
                 c.silent_ticks += 1;
-                c.up.clear();
+                if !c.one_way {
+                    c.up.clear();
+                }
                 c.down.clear();
                 // whatever was in flight is gone, including a disconnect datagram
                 c.expect_server_end_by = None;
@@ -467,6 +479,10 @@ impl Net {
                 // total silence in both directions for longer than the timeout ends the session on both sides
                 if c.silent_ticks * tick_ms > timeout_ms + 2 * tick_ms && c.ever_connected_client {
                     c.disconnect_decided = true;
+                }
+                if c.silence == 0 {
+                    // the relay forwards again from this tick on (a following silence starts counting afresh)
+                    c.silent_ticks = 0;
                 }
             } else {
                 c.silent_ticks = 0;
@@ -484,6 +500,12 @@ impl Net {
             }
             if c.client.is_connected() {
                 c.ever_connected_client = true;
+            }
+            if c.silence > 0 && c.silent_ticks * tick_ms > timeout_ms + 3 * tick_ms && c.client.is_connected() {
+                return Err(Fail::new(
+                    "client_survived_silence",
+                    format!("client object {ci} is still connected after {} ms without a single datagram from its server's address (timeout {} ms)", c.silent_ticks * tick_ms, timeout_ms),
+                ));
             }
             if !was && c.client.is_disconnected() && self.gentle {
                 return Err(Fail::new(
@@ -612,7 +634,7 @@ impl Property for C20 {
         "fault_enumeration"
     }
     fn rule(&self) -> String {
-        "A case runs the real NetcodeServerTransport and 1-3 NetcodeClientTransports (secure authentication with generated tokens, or in some cases the Unsecure development mode of both transports) (plus reconnecting client objects with new tokens; some tokens list a silent address before the real one, so the client fails over first) on loopback UDP sockets through an in-path relay that the harness thread pumps after every transport call. Relay fault decision per (client, direction, datagram): forward / drop / duplicate / delay 1-6 ticks (hence reorder) / flip one bit / forward and replay an old datagram of that link; whole-silence periods; application traffic on all three default channels in both directions and broadcasts; disconnects decided by RenetClient::disconnect, NetcodeClientTransport::disconnect, RenetServer::disconnect, NetcodeServerTransport::disconnect_all, by silence (timeouts) and by the receiving message layer itself while it processes a datagram (a peer sends more than the receiver's budget of the extra channel 3, or on a channel only the sender knows); reconnects; the client limit raised and lowered at run time; in some cases a local (in-process) client connected to the same RenetServer; 'aged' cases start the message layer's packet counters at 2^40 so that full slices make the largest datagrams; messages are also submitted while the handshake still runs; a second client object of a connected id may start while the first is alive; single server frames longer than the timeout; in some cases tokens expire 2 * timeout + 4 s after they were minted, so sessions outlive their token. Oracles: right after every NetcodeServerTransport::update the ids the message layer reports connected equal the ids the netcode layer holds (client_addr, connected_clients), no disconnected connection is left, and equal the ids open in the ServerEvent stream, which alternates per id and only names ids that hold a token; every message obtained over the full stack satisfies the ordered-prefix / unordered-at-most-once / unreliable-membership oracles of its session; after the faults stop and timeout + 3 s of fault-free ticks every session for which a disconnect was decided anywhere has ended on both sides, and every session that stayed healthy has obtained all reliable messages; in 'gentle' cases (no disconnect operation, no silence, at least one genuine datagram per direction forwarded in every third of the timeout) nobody is ever disconnected whatever else the relay does, and at the end every client is connected in both layers on both sides; a transport update never reports 'nothing more to read' (WouldBlock) as an error. Non-trivial: at least one corrupted or replayed datagram after a handshake completed and at least one relay fault. Distinct = hash of the decoded operation trace.".into()
+        "A case runs the real NetcodeServerTransport and 1-3 NetcodeClientTransports (secure authentication with generated tokens, or in some cases the Unsecure development mode of both transports) (plus reconnecting client objects with new tokens; some tokens list a silent address before the real one, so the client fails over first) on loopback UDP sockets through an in-path relay that the harness thread pumps after every transport call. Relay fault decision per (client, direction, datagram): forward / drop / duplicate / delay 1-6 ticks (hence reorder) / flip one bit / forward and replay an old datagram of that link; whole-silence periods (in some cases the datagrams for the client then arrive from another source port of the relay's host instead of being dropped, while its own datagrams may still reach the server, which a client transport must treat as silence: after timeout + 3 ticks of it the client is disconnected); application traffic on all three default channels in both directions and broadcasts; disconnects decided by RenetClient::disconnect, NetcodeClientTransport::disconnect, RenetServer::disconnect, NetcodeServerTransport::disconnect_all, by silence (timeouts) and by the receiving message layer itself while it processes a datagram (a peer sends more than the receiver's budget of the extra channel 3, or on a channel only the sender knows); reconnects; the client limit raised and lowered at run time (the transport's max_clients() reads back what was set); in some cases a local (in-process) client connected to the same RenetServer; 'aged' cases start the message layer's packet counters at 2^40 so that full slices make the largest datagrams; messages are also submitted while the handshake still runs; a second client object of a connected id may start while the first is alive; single server frames longer than the timeout; in some cases tokens expire 2 * timeout + 4 s after they were minted, so sessions outlive their token. Oracles: right after every NetcodeServerTransport::update the ids the message layer reports connected equal the ids the netcode layer holds (client_addr, connected_clients), no disconnected connection is left, and equal the ids open in the ServerEvent stream, which alternates per id and only names ids that hold a token; every message obtained over the full stack satisfies the ordered-prefix / unordered-at-most-once / unreliable-membership oracles of its session; after the faults stop and timeout + 3 s of fault-free ticks every session for which a disconnect was decided anywhere has ended on both sides, and every session that stayed healthy has obtained all reliable messages; in 'gentle' cases (no disconnect operation, no silence, at least one genuine datagram per direction forwarded in every third of the timeout) nobody is ever disconnected whatever else the relay does, and at the end every client is connected in both layers on both sides; a transport update never reports 'nothing more to read' (WouldBlock) as an error. Non-trivial: at least one corrupted or replayed datagram after a handshake completed and at least one relay fault. Distinct = hash of the decoded operation trace.".into()
     }
     fn assumptions(&self) -> Vec<String> {
         vec![
@@ -625,7 +647,7 @@ impl Property for C20 {
         PbtCfg { cases: tier.pick(15_000, 300_000), max_len: tier.pick(1200, 5000), shrink_ms: 120_000 }
     }
     fn required_labels(&self) -> Vec<&'static str> {
-        vec!["relay_corrupt", "relay_replay", "relay_drop", "relay_dup", "relay_delay", "client_disconnect", "transport_disconnect", "server_disconnect", "disconnect_all", "timeout_by_silence", "gentle_case", "reconnect", "event_connected", "event_disconnected", "e2e_messages", "poison_to_client", "poison_to_server", "server_msg_layer_disconnect", "client_msg_layer_disconnect", "silent_first_address", "unsecure_authentication", "local_client", "limit_changed", "aged_counters", "unreachable_first_address", "second_object_same_id", "sent_while_connecting", "server_long_frame", "short_lived_tokens"]
+        vec!["relay_corrupt", "relay_replay", "relay_drop", "relay_dup", "relay_delay", "client_disconnect", "transport_disconnect", "server_disconnect", "disconnect_all", "timeout_by_silence", "gentle_case", "reconnect", "event_connected", "event_disconnected", "e2e_messages", "poison_to_client", "poison_to_server", "server_msg_layer_disconnect", "client_msg_layer_disconnect", "silent_first_address", "unsecure_authentication", "local_client", "limit_changed", "aged_counters", "unreachable_first_address", "second_object_same_id", "sent_while_connecting", "server_long_frame", "short_lived_tokens", "misrouted_during_silence", "one_way_silence"]
     }
     fn run_choices(&self, ctx: &mut Ctx) -> Outcome {
         renetcode::verif::set_rng_seed(Some(ctx.src.u16() as u64 | 1));
@@ -641,6 +663,7 @@ impl Property for C20 {
             ctx.label("aged_counters");
         }
         let unsecure = ctx.src.chance(20);
+        let misroute = ctx.src.chance(100);
         let short_tokens = !unsecure && ctx.src.chance(100);
         if short_tokens {
             ctx.label("short_lived_tokens");
@@ -677,6 +700,7 @@ impl Property for C20 {
             unsecure,
             aged,
             short_tokens,
+            misroute,
             debug: std::env::var("RV_DEBUG").is_ok(),
             server_dt_once: None,
             timeout_s,
@@ -822,6 +846,12 @@ impl Property for C20 {
                     let ci = ctx.src.below(net.clients.len());
                     let ticks = ctx.src.pick(&[5u32, 20, 80, 160]);
                     net.clients[ci].silence = ticks;
+                    // with misrouting, half of the silences leave the client's own datagrams alone: the server keeps the session and keeps
+                    // sending, the client hears nothing from the address it talks to
+                    net.clients[ci].one_way = net.misroute && ctx.src.chance(128);
+                    if net.clients[ci].one_way {
+                        ctx.label("one_way_silence");
+                    }
                     if ticks as u64 * tick_ms > timeout_s * 1000 {
                         ctx.label("timeout_by_silence");
                     }
@@ -872,6 +902,9 @@ impl Property for C20 {
                     net.st.set_max_clients(to);
                     if net.st.connected_clients() != before {
                         return Err(Fail::new("limit_change_dropped_sessions", format!("set_max_clients({to}) changed the number of netcode sessions from {before} to {}", net.st.connected_clients())));
+                    }
+                    if net.st.max_clients() != to {
+                        return Err(Fail::new("limit_not_forwarded", format!("NetcodeServerTransport::set_max_clients({to}) left max_clients() at {} ({before} sessions held)", net.st.max_clients())));
                     }
                     ctx.label("limit_changed");
                     Op::SetLimit { to }
